@@ -1080,6 +1080,15 @@ def wl_C13(tier, rng):
         m = max(max(e) for e in es) + 1
         ops += [f"q 1 hasEdge {m} 0", f"q 1 hasEdge {m - 1} 0", f"resize 1 {n}", "eq 0 1", "eq 1 0"]
         yield ({"cls": cls, "kind": kind, "n": n, "len": len(ops), "family": "big-index"}, ops)
+    # the tokeniser itself (public io::findEdgeFromString): any mix of blanks, tabs and the other separators
+    for _ in range(scale(tier, 60, 1200)):
+        ops = []
+        for _ in range(10):
+            toks = [rng.choice(["0", "12", "a", "x#1", "\u00e9", "7"]) for _ in range(rng.randint(0, 4))]
+            sep = lambda lo=1: "".join(rng.choice([" ", "\t", " ", "\v", "\f", "\r"]) for _ in range(rng.randint(lo, 3)))
+            line = sep(0) + sep().join(toks) + sep(0)
+            ops.append("tokenise " + hexs(line.encode()))
+        yield ({"cls": "-", "kind": "-", "n": 0, "len": len(ops), "family": "tokenise"}, ops)
     # documented format: comments, horizontal whitespace, names
     for _ in range(scale(tier, 2500, 40000)):
         cls = rng.choice(SIMPLE)
